@@ -128,6 +128,23 @@ def run_program(ctx, n, hist, rng, kind, inplace):
         Y = Z
 
 
+KINDS = ['generic', 'deficient', 'scaled', 'integer', 'fortran']
+
+
+def _prog_worker(task):
+    from . import common
+    j, pr, seed = task
+    rec = common.Recorder()
+    rng = np.random.default_rng(seed)
+    kind = KINDS[j % len(KINDS)]
+    inplace = bool(j % 2)
+    eff = sum(1 for s in pr['hist'][1:] if not s['rejected'])
+    rec.case(key=(pr['n'], repr(pr['hist']), kind, inplace), nontrivial=kind in ('deficient', 'scaled') or eff >= 2 or max(pr['hist'][0]['r']) >= 5,
+             sample={'n': pr['n'], 'program': [{'op': s['op'], 'i': s['i'], 'rejected': s['rejected'], 'st': s['st'], 'r': s['r']} for s in pr['hist']]} if j < 2 else None)
+    run_program(rec, pr['n'], pr['hist'], rng, kind, inplace)
+    return rec.records
+
+
 def record_sweep(Y, k, stab):
     ev = []
     oL, oR, oS = T_MOD.orthogonalize_left, T_MOD.orthogonalize_right, teneva.core_stab
@@ -171,14 +188,9 @@ def run(ctx):
     progs = res.json
     if quick and len(progs) > 3000:
         progs = [progs[j] for j in rng.permutation(len(progs))[:3000]]
-    kinds = ['generic', 'deficient', 'scaled', 'integer', 'fortran']
-    for j, pr in enumerate(progs):
-        kind = kinds[j % len(kinds)]
-        inplace = bool(j % 2)
-        eff = sum(1 for s in pr['hist'][1:] if not s['rejected'])
-        ctx.case(key=(pr['n'], repr(pr['hist']), kind, inplace), nontrivial=kind in ('deficient', 'scaled') or eff >= 2 or max(pr['hist'][0]['r']) >= 5,
-                 sample={'n': pr['n'], 'program': [{'op': s['op'], 'i': s['i'], 'rejected': s['rejected'], 'st': s['st'], 'r': s['r']} for s in pr['hist']]} if j < 2 else None)
-        run_program(ctx, pr['n'], pr['hist'], rng, kind, inplace)
+    kinds = KINDS
+    from . import common
+    common.pmap(ctx, _prog_worker, [(j, pr, int(ctx.seed * 1000003 + j)) for j, pr in enumerate(progs)])
     # traced sweeps with / without stabilisation
     trs, metas = [], []
     for t in range(60 if quick else 500):
